@@ -375,7 +375,10 @@ def _segments(draw, size):
     """random sorted non-overlapping data segments inside [0,size]"""
     if size == 0:
         return [(0, 0)]
-    n = draw(st.integers(0, 8))
+    # mostly few segments; sometimes enough to fill several old-GNU extension headers (4 + 21 per header) / more than
+    # one 512 byte block of a sparse 1.0 map
+    n = draw(st.one_of(st.integers(0, 8), st.integers(0, 8), st.sampled_from([4, 5, 21, 25, 26, 40, 46, 47, 60, 90, 130])))
+    n = min(n, size // 2)
     cuts = sorted(set(draw(st.lists(st.integers(0, size), min_size=2 * n, max_size=2 * n))))
     segs = []
     for i in range(0, len(cuts) - 1, 2):
